@@ -21,7 +21,7 @@ import (
 
 type c19Fault struct {
 	Kind   string `json:"kind"`   // server-finish | server-fail | cut | half-close | reset-read | garbage | non-envelope | oversized | regress-session | eof
-	Moment string `json:"moment"` // idle | during-send | during-inbound
+	Moment string `json:"moment"` // idle | during-send | during-inbound | backlog (the client's handler is stuck with inbound envelopes queued; the application sends right after the fault)
 }
 
 type c19Case struct {
@@ -43,10 +43,12 @@ type c19Round struct {
 }
 
 type c19Obs struct {
-	Note      string     `json:"note,omitempty"`
-	Rounds    []c19Round `json:"rounds"`
-	OKNotSent []string   `json:"okNotSent,omitempty"` // ids whose SendMessage returned nil but which never appeared on any connection
-	Sessions  int        `json:"sessions"`
+	Note         string     `json:"note,omitempty"`
+	Rounds       []c19Round `json:"rounds"`
+	OKNotSent    []string   `json:"okNotSent,omitempty"`    // ids whose SendMessage returned nil but which never appeared on any connection
+	OKNotHandled []string   `json:"okNotHandled,omitempty"` // ids sent after a fault had settled whose SendMessage returned nil but which no session of the server ever handled
+	Sessions     int        `json:"sessions"`
+	Leftover     string     `json:"leftover,omitempty"` // library goroutines alive after Client.Close, Server.Close and the release bound
 }
 
 const c19ReadLimit = 4096
@@ -114,7 +116,11 @@ func runC19(c *c19Case) *c19Obs {
 	// the client under test
 	clientGot := map[string]bool{}
 	cmux := &lime.EnvelopeMux{}
+	var gate atomic.Value // chan struct{}: while set, the client's handler waits on it
 	cmux.MessageHandlerFunc(nil, func(_ context.Context, m *lime.Message, _ lime.Sender) error {
+		if g, _ := gate.Load().(chan struct{}); g != nil {
+			<-g
+		}
 		mu.Lock()
 		clientGot[m.ID] = true
 		mu.Unlock()
@@ -159,6 +165,7 @@ func runC19(c *c19Case) *c19Obs {
 	}
 	synctest.Wait()
 	var okIDs []string
+	var postFaultOK []string // sent after a fault had settled and reported sent: must be handled by the server
 	seq := 0
 	sendProbe := func(timeout time.Duration) (string, error, time.Duration) {
 		seq++
@@ -193,6 +200,7 @@ func runC19(c *c19Case) *c19Obs {
 		mu.Unlock()
 		// traffic around the moment of the fault
 		var bg sync.WaitGroup
+		openGate := func() {}
 		switch f.Moment {
 		case "during-send":
 			senders := c.Senders
@@ -216,6 +224,18 @@ func runC19(c *c19Case) *c19Obs {
 					}
 				}()
 			}
+		case "backlog":
+			// the client's handler gets stuck on the first of a series of pushed messages: the rest stays queued in the
+			// client's channel and transport when the fault comes
+			g := make(chan struct{})
+			gate.Store(g)
+			openGate = func() { gate.Store((chan struct{})(nil)); close(g) }
+			for k := 0; k < c.ChanBuf+6; k++ {
+				ctx, cancel := context.WithTimeout(context.Background(), 200*time.Millisecond)
+				_ = sc.SendMessage(ctx, c13Message(fmt.Sprintf("backlog-%d-%d", fi, k)))
+				cancel()
+			}
+			synctest.Wait()
 		case "during-inbound":
 			bg.Add(1)
 			cur := sc
@@ -274,6 +294,22 @@ func runC19(c *c19Case) *c19Obs {
 		fcancel()
 		bg.Wait()
 		synctest.Wait()
+		if f.Moment == "backlog" {
+			// the fault has settled; the application sends while its handler is still stuck. Whatever is reported sent must
+			// reach the server (on whatever session); a failure is fine
+			for k := 0; k < 3; k++ {
+				id := fmt.Sprintf("early-%d-%d", fi, k)
+				ctx, cancel := context.WithTimeout(context.Background(), 200*time.Millisecond)
+				err := client.SendMessage(ctx, c13Message(id))
+				cancel()
+				if err == nil {
+					postFaultOK = append(postFaultOK, id)
+				}
+				synctest.Wait()
+			}
+			openGate()
+			synctest.Wait()
+		}
 		// let the bound pass; if something spins, the fake clock cannot advance and the watchdog outside the bubble reports it
 		time.Sleep(2 * time.Second)
 		synctest.Wait()
@@ -283,6 +319,8 @@ func runC19(c *c19Case) *c19Obs {
 		r.SendLatencyMs = lat.Milliseconds()
 		if err != nil {
 			r.SendErr = err.Error()
+		} else {
+			postFaultOK = append(postFaultOK, id)
 		}
 		synctest.Wait()
 		time.Sleep(100 * time.Millisecond)
@@ -329,8 +367,14 @@ func runC19(c *c19Case) *c19Obs {
 		}
 		mu.Unlock()
 	}
+	synctest.Wait()
 	mu.Lock()
 	obs.Sessions = len(sessionIDs)
+	for _, id := range postFaultOK {
+		if _, ok := handledBy[id]; !ok {
+			obs.OKNotHandled = append(obs.OKNotHandled, id)
+		}
+	}
 	mu.Unlock()
 	_ = client.Close()
 	_ = server.Close()
@@ -343,6 +387,24 @@ func runC19(c *c19Case) *c19Obs {
 	fl.mu.Unlock()
 	time.Sleep(6 * time.Second)
 	synctest.Wait()
+	if lib, _ := bubbleLeftovers(); len(lib) > 0 {
+		obs.Leftover = strings.Join(lib, "\n--\n")
+		// release what is left so that the bubble can end: closing every in-process pair is not possible from here, the
+		// verdict has been recorded
+	}
+	return obs
+}
+
+// c19InBubble runs one case in a bubble. When library goroutines are still blocked at the end (recorded in the
+// observation as a leftover), the bubble refuses to end ("blocked goroutines remain"): that panic is absorbed here, the
+// verdict is in the observation.
+func c19InBubble(t *testing.T, c *c19Case) *c19Obs {
+	var obs *c19Obs
+	if p := Protect(func() { synctest.Test(t, func(t *testing.T) { obs = runC19(c) }) }); p != "" {
+		if obs == nil || obs.Leftover == "" || !strings.Contains(p, "blocked goroutines remain") {
+			panic(p)
+		}
+	}
 	return obs
 }
 
@@ -376,6 +438,12 @@ func judgeC19(c *c19Case, obs *c19Obs, o *Outcome) {
 			o.Fail("C19/deaf-after-fault/"+key, "round %d (%s): a message pushed on the new session did not reach the client's handler", i, r.Fault)
 			return
 		}
+	}
+	if obs.Leftover != "" {
+		o.Fail("C19/goroutine-left/"+c.Transport, "after Client.Close, Server.Close and the release bound library goroutines are still alive:\n%s", truncate(obs.Leftover, 2500))
+	}
+	if len(obs.OKNotHandled) > 0 {
+		o.Fail("C19/send-ok-but-not-delivered/"+c.Transport, "SendMessage returned nil for %v, sent after a fault had settled, but no session of the server ever handled them", obs.OKNotHandled)
 	}
 	if len(obs.OKNotSent) > 0 {
 		o.Fail("C19/send-ok-but-not-written/"+c.Transport, "SendMessage returned nil for %v but the bytes never appeared on any connection", obs.OKNotSent)
@@ -459,7 +527,7 @@ func TestC19Enum(t *testing.T) {
 			if tr == "inproc" && kind != "server-finish" && kind != "server-fail" && kind != "eof" {
 				continue // byte-level faults need a byte stream
 			}
-			for _, moment := range []string{"idle", "during-send", "during-inbound"} {
+			for _, moment := range []string{"idle", "during-send", "during-inbound", "backlog"} {
 				for _, reps := range []int{1, 3} {
 					idx++
 					if idx%nsh != sh {
@@ -480,7 +548,7 @@ func TestC19Enum(t *testing.T) {
 					var obs *c19Obs
 					rec.Journal(c)
 					c19Current.Store(string(toRaw(c)))
-					synctest.Test(t, func(t *testing.T) { obs = runC19(c) })
+					obs = c19InBubble(t, c)
 					atomic.AddInt64(&c19Beat, 1)
 					judgeC19(c, obs, o)
 					rec.Eval(c, o)
@@ -520,7 +588,7 @@ func TestC19Flap(t *testing.T) {
 					var obs *c19Obs
 					rec.Journal(c)
 					c19Current.Store(string(toRaw(c)))
-					synctest.Test(t, func(t *testing.T) { obs = runC19(c) })
+					obs = c19InBubble(t, c)
 					atomic.AddInt64(&c19Beat, 1)
 					judgeC19(c, obs, o)
 					o.Class("senders=8")
@@ -551,7 +619,7 @@ func TestC19(t *testing.T) {
 					usable = append(usable, k)
 				}
 			}
-			c.Faults = append(c.Faults, c19Fault{Kind: rapid.SampledFrom(usable).Draw(rt, "kind"), Moment: rapid.SampledFrom([]string{"idle", "during-send", "during-inbound"}).Draw(rt, "moment")})
+			c.Faults = append(c.Faults, c19Fault{Kind: rapid.SampledFrom(usable).Draw(rt, "kind"), Moment: rapid.SampledFrom([]string{"idle", "during-send", "during-inbound", "backlog"}).Draw(rt, "moment")})
 		}
 		o := &Outcome{}
 		var obs *c19Obs
@@ -581,9 +649,12 @@ func TestC19Replay(t *testing.T) {
 		o := &Outcome{}
 		var obs *c19Obs
 		c19Current.Store(string(toRaw(&c)))
-		synctest.Test(t, func(t *testing.T) { obs = runC19(&c) })
+		obs = c19InBubble(t, &c)
 		atomic.AddInt64(&c19Beat, 1)
 		judgeC19(&c, obs, o)
+		if os.Getenv("VERIF_DEBUG") != "" {
+			t.Logf("obs: %s", toRaw(obs))
+		}
 		rec.Eval(&c, o)
 	}
 }
